@@ -150,6 +150,10 @@ def sh(cmd, cwd=None, timeout=1800, env=None, check=True, quiet=True):
 
 def build_harness(profiles=("dev",), features=()):
     """cargo build of the harness against /repo's working tree (incremental)."""
+    tmpl = open(os.path.join(HARNESS, "Cargo.toml.in")).read().replace("@REPO@", REPO)
+    ct = os.path.join(HARNESS, "Cargo.toml")
+    if not os.path.exists(ct) or open(ct).read() != tmpl:
+        open(ct, "w").write(tmpl)
     lock_src = os.path.join(REPO, "Cargo.lock")
     lock_dst = os.path.join(HARNESS, "Cargo.lock")
     if os.path.exists(lock_src) and not os.path.exists(lock_dst):
